@@ -41,7 +41,7 @@ SPEC = dict(
         )),
         dict(kind="script", name="c14_expat", script="harness/c14_expat.py", needs=["c14_xml"],
              quick=dict(args=[1500]), thorough=dict(args=[60000])),
-        fuzz("fuzz_xml", "harness/fuzz_xml.cpp", dict(runs=300000, procs=4, max_len=512, max_seconds=25, timeout=120),
-             dict(runs=25000000, procs=16, max_len=2048, max_seconds=420, timeout=120), corpus="corpus/C14", dict="harness/fuzz_xml.dict"),
+        fuzz("fuzz_xml", "harness/fuzz_xml.cpp", dict(runs=300000, procs=4, max_len=512, max_seconds=25, timeout=60),
+             dict(runs=25000000, procs=16, max_len=2048, max_seconds=420, timeout=60), corpus="corpus/C14", dict="harness/fuzz_xml.dict"),
     ],
 )
